@@ -375,6 +375,17 @@ func (w *World) Build(parent *MBlock, o BlockOpts) *MBlock {
 	if mut != nil && mut.header != nil {
 		mut.header(bp)
 	}
+	if d := &net.Diff; d.BIP94 && !d.NoRetarget && height%d.interval() == 0 && bp.ts < parent.H.ts-600 && bp.flag == "" {
+		// BIP94: the first block of a retarget period may not be more than
+		// 600 s older than its parent.  A block meant to be valid stays so.
+		if mut == nil || mut.class == ClsValid {
+			bp.ts = parent.H.ts - 600
+			if mut != nil && mut.header != nil {
+				b.Mut = ""
+				mut = nil
+			}
+		}
+	}
 	bp.bits = net.Diff.nextBits(parent.H, bp.ts)
 	if mut != nil && mut.bits != nil {
 		mut.bits(bp)
@@ -600,6 +611,7 @@ type blockPlan struct {
 	spentIn map[wire.OutPoint]bool     // spent by txs of this block
 	created map[wire.OutPoint]*utxoRec // created by txs of this block
 
+	flag           string // set by a header mutation that found its context
 	cbDelta        int64
 	cbExact        bool
 	cbHeightScript []byte
